@@ -15,6 +15,7 @@ inductive Exc
   | valueError     -- ValueError("I/O operation on closed file.") from a closed channel-log sink
   | hookError      -- whatever a user supplied on_open/on_close hook raises
   | bodyError      -- whatever the body of a with-block raises
+  | closeError     -- whatever transport.close() itself raises (PtyProcessError "Could not terminate the child.")
 deriving Repr, DecidableEq, Inhabited
 
 inductive Outcome
@@ -97,6 +98,8 @@ inductive Node
   | simple (x : GS)
   | tryFinally (body fin : List GS)              -- try: body  finally: fin
   | tryExceptRaise (body handler : List GS)      -- try: body  except Exception as exc: handler; raise ScrapliConnectionError(exc) from exc
+  | tryFinallyN (body fin1 fin2 : List GS)       -- try: body  finally: (try: fin1  finally: fin2)
+  | tryExceptRaiseN (body h0 h1 h2 : List GS)    -- try: body  except Exception as exc: h0; (try: h1  finally: h2); raise ScrapliConnectionError(exc) from exc
 deriving Repr, DecidableEq, Inhabited
 
 abbrev Prog := List Node
